@@ -47,23 +47,27 @@ def main():
                 lam = np.arange(1.0, n + 1) * rng.choice([-1, 1], n)
                 M = S @ np.diag(lam) @ np.linalg.inv(S)
                 cases.append((f"n={n} indefinite spectrum, eigenvector right-hand sides", M, cplx, S[:, :3]))
+    for n in (5, 12):
+        cases.append((f"n={n} real operator, complex right-hand sides", rnd(n, n) + 0.5 * np.eye(n), "crhs", "random"))
     for name, M, cplx, rhs_kind in cases:
         n = M.shape[0]
+        crhs = cplx == "crhs"
+        cplx = bool(cplx) and not crhs
         M = M.astype(np.complex128 if cplx else np.float64)
         scale = 10.0 ** rng.integers(-2, 3)
         M = M * scale
         kcols = 3 if n >= 3 else 1
         if isinstance(rhs_kind, str):
-            B = rnd(n, kcols, cplx=cplx) * np.array([10.0 ** rng.integers(-2, 3) for _ in range(kcols)])
+            B = rnd(n, kcols, cplx=cplx or crhs) * np.array([10.0 ** rng.integers(-2, 3) for _ in range(kcols)])
         else:
             B = rhs_kind[:, :kcols] @ np.diag(rng.uniform(0.5, 2, kcols)) + (rhs_kind[:, [1, 2, 0]][:, :kcols] if kcols == 3 else 0)   # sums of two eigenvectors
-        B = B.astype(M.dtype)
+        B = B.astype(np.complex128 if crhs else M.dtype)
         for x0kind in ("zero", "random"):
-            X0 = np.zeros_like(B) if x0kind == "zero" else rnd(n, kcols, cplx=cplx).astype(M.dtype)
+            X0 = np.zeros_like(B) if x0kind == "zero" else rnd(n, kcols, cplx=cplx or crhs).astype(B.dtype)
             R0 = B - M @ X0
             prev = None
             for m in list(range(1, n + 1)) + [n + 3]:
-                inp = f"gmres({name}, {'complex' if cplx else 'real'}, scale {scale:g}, {kcols} columns, x0={x0kind}, max_iters={m}, tol=1e-12), seed 13"
+                inp = f"gmres({name}, {'complex' if cplx else 'real'} operator, scale {scale:g}, {kcols} columns, x0={x0kind}, max_iters={m}, tol=1e-12), seed 13"
                 try:
                     X, info = G.gmres(Dense(M), B, x0=X0 if x0kind == "random" else None, max_iters=m, tol=1e-12)
                 except Exception as e:
